@@ -113,7 +113,7 @@ def reachable_bodies(ctx, roots, stop=None):
     return list(seen.values())
 
 
-def lifted_dominated(ctx, b, point, site_pred, _depth=0, _seen=None):
+def lifted_dominated(ctx, b, point, site_pred, _depth=0, _seen=None, markers=None):
     """True iff on every call chain from a root down to (b, point) some site satisfying
     site_pred(body, CallSite) dominates the chain's call site (or `point` itself in b).
     Returns (ok, witness list / failing chain)."""
@@ -125,13 +125,18 @@ def lifted_dominated(ctx, b, point, site_pred, _depth=0, _seen=None):
     for cs in b.calls:
         if cs.point != point and site_pred(b, cs) and b.dominates(cs.point, point):
             return True, [(b, cs)]
+    if markers is not None:
+        # the required step written in place in this body (not factored into a callee)
+        for mp in markers(b):
+            if mp != point and b.dominates(mp, point):
+                return True, [(b, b.call_at.get(mp))]
     cal = callers_of(ctx, b)
     is_root = any(r['node'] == b.id for r in ctx.f.roots)
     if is_root or not cal:
         return False, [(b, None)]
     wit = []
     for (cb, cs) in cal:
-        ok, w = lifted_dominated(ctx, cb, cs.point, site_pred, _depth + 1, _seen)
+        ok, w = lifted_dominated(ctx, cb, cs.point, site_pred, _depth + 1, _seen, markers)
         if not ok:
             return False, [(b, None)] + w
         wit.extend(w)
@@ -236,4 +241,21 @@ def emptiness_tests(b, type_re=r'.'):
                     out.append((e[0], e[1], lens[0][1]))
                 elif (op, k) in (('Ne', 0), ('Ge', 1), ('Gt', 0)):
                     out.append((e[1], e[0], lens[0][1]))
+    return out
+
+
+
+def next_position_calls(ctx, b):
+    """Calls in API body b whose result is the queue's next position: the map-level accessor
+    (`-> Result<u64, MissingQueue>`) or `MemQueue::next_position()` applied to a queue looked up in place."""
+    out = []
+    for cs in b.calls:
+        dl = cs.dest_local()
+        if cs.node is None or dl is None:
+            continue
+        ty = b.local_ty(dl)
+        if ty.startswith('std::result::Result<u64, error::MissingQueue'):
+            out.append(cs)
+        elif ty == 'u64' and cs.path.endswith('MemQueue::next_position'):
+            out.append(cs)
     return out
